@@ -60,7 +60,7 @@ class CHECK(Check):
 
     def impl(self, case):
         import os, hashlib
-        regs = [reglib.mk_register_class(rd, i) for i, rd in enumerate(case["regdefs"])]
+        regs = reglib.mk_register_classes(case["regdefs"])
         h = int(hashlib.sha1(repr(case).encode()).hexdigest(), 16)
         enc = ["utf-8", "latin-1", "cp1252"][h % 3]
         F = reglib.mk_file_class(regs, encoding=enc)
